@@ -79,3 +79,14 @@ Theorem C09_fragment_round_trip_text : forall t, wf_b t = true -> rt_ok t = true
   render_md (mkMopts false) None (fst (fst (parse_document cfg_markdown (concat (text_of (spell t)))))) = concat (text_of (spell t)).
 Proof. exact fragment_round_trip_text. Qed.
 Print Assumptions C09_fragment_round_trip_text.
+
+(* ... and on the outline lists of Spec/Outline.v (tight nested bullet lists, one item per line, any size and depth; any
+   bullet, 1-4 spaces after it, sub-lists indented 0-3 columns inside their item, the whole list indented 0-3): the
+   round trip is the identity *)
+From Mistletoe Require Import Proofs.IndentLaw Spec.Outline Proofs.OutlineP Proofs.OutlineMore.
+Theorem C09_outline_round_trip : forall b pad sub k ns,
+  bullet_ok b -> (1 <= pad <= 4)%nat -> (sub <= 3)%nat -> (k <= 3)%nat -> ns <> [] -> forallb owf ns = true ->
+  render_md (mkMopts false) None (fst (fst (parse_lines cfg_markdown (text_of (Outline.oforest b pad sub k ns))))) =
+  concat (text_of (Outline.oforest b pad sub k ns)).
+Proof. intros b pad sub k ns Hb Hp Hs. exact (outline_round_trip b pad sub Hb Hp Hs k ns). Qed.
+Print Assumptions C09_outline_round_trip.
